@@ -78,8 +78,53 @@ def to_poly(t, limit=200000, _memo=None):
     return r
 
 
-def is_zero(t, limit=200000):
+def reduce_trig(p, rename, pairs, limit=200000):
+    """normal form modulo the listed ground trigonometric relations:
+    rename: atom id -> (sign, atom id)   [cos(-x) = cos x, sin(-x) = -sin x]
+    pairs:  sin atom id -> cos atom id   [sin^2 = 1 - cos^2]"""
+    out = {}
+    work = list(p.items())
+    steps = 0
+    while work:
+        m, c = work.pop()
+        steps += 1
+        if steps > limit:
+            raise TooBig()
+        sign = 1
+        mm = []
+        for a in m:
+            if a in rename:
+                sg, b = rename[a]
+                sign *= sg
+                mm.append(b)
+            else:
+                mm.append(a)
+        m = tuple(sorted(mm))
+        c = c * sign
+        done = True
+        for sid, cid in pairs.items():
+            if m.count(sid) >= 2:
+                rest = list(m)
+                rest.remove(sid)
+                rest.remove(sid)
+                work.append((tuple(sorted(rest)), c))
+                work.append((tuple(sorted(rest + [cid, cid])), -c))
+                done = False
+                break
+        if done:
+            v = out.get(m, 0) + c
+            if v == 0:
+                out.pop(m, None)
+            else:
+                out[m] = v
+    return out
+
+
+def is_zero(t, limit=200000, trig=None):
     try:
-        return len(to_poly(t, limit)) == 0
+        p = to_poly(t, limit)
+        if p and trig is not None:
+            p = reduce_trig(p, trig[0], trig[1], limit)
+        return len(p) == 0
     except TooBig:
         return False
